@@ -181,3 +181,14 @@ package mempool
 //@ loop 0 invariant[maps] mapsOK(mp)
 //@ loop 0 invariant[rest] forall(j, $i, len(mp.verifiedTxes), mp.verifiedTxes[j] == old(mp.verifiedTxes[j]))
 //@ loop 0 invariant[kept] forall(j, 0, len(newVerifiedTxes), newVerifiedTxes[j].txn != nil && wfTx(newVerifiedTxes[j].txn) && transaction.wfAttrs(newVerifiedTxes[j].txn))
+
+// (C06/C08) a transaction conflicts with the pool when it is pooled itself, when a pooled transaction
+// names it in a Conflicts attribute, or when it names a pooled one - each of the three alone suffices
+// (block processing drops pooled transactions by this test).
+//@ prop C06,C08
+//@ func (*Pool).HasConflicts
+//@ may-panic
+//@ opt frame off
+//@ requires mp != nil && t != nil
+//@ ensures[named] old(has(mp.conflicts, transaction.txHash(t))) ==> result
+//@ ensures[pooled] old(has(mp.verifiedMap, transaction.txHash(t))) ==> result
